@@ -6,7 +6,10 @@ from the `random.Random` handed in.
 
 API
 ---
-  gen_story(rng, n_passages=None, depth=2) -> Story          a valid story (compiles on the pinned tree)
+  gen_story(rng, n_passages=None, depth=2, colon_headers=('if','for')) -> Story
+                                                            a valid story (compiles on the pinned tree);
+                                                            colon_headers: constructs whose header may (rarely)
+                                                            contain a ':' such as @if xs[0:1]:
   print_story(story, style=BASE) -> Printed                 .text (str), .lines (list[Line])
   Style(legacy=frozenset(), indent=(), hash_at=frozenset(), trailing=None, comment='note', join_indent='    ')
   BASE                                                      the baseline style: @-forms, no comments, bodies
@@ -575,7 +578,7 @@ def gen_jump(rng, sigs):
     return Jump(name, args)
 
 
-def gen_block_item(rng, sigs, depth, ctx):
+def gen_block_item(rng, sigs, depth, ctx, colon=()):
     """One item for an @if branch or @for body."""
     r = rng.random()
     if r < 0.40:
@@ -597,27 +600,27 @@ def gen_block_item(rng, sigs, depth, ctx):
     if r < 0.88:
         return gen_jump(rng, sigs)
     if depth > 0:
-        return gen_if(rng, sigs, depth - 1) if rng.random() < 0.55 else gen_for(rng, sigs, depth - 1)
+        return gen_if(rng, sigs, depth - 1, colon) if rng.random() < 0.55 else gen_for(rng, sigs, depth - 1, colon)
     return gen_text(rng, ctx)
 
 
-def gen_if(rng, sigs, depth):
+def gen_if(rng, sigs, depth, colon=()):
     nb = rng.choice([1, 1, 2, 2, 3])
     branches = []
     for k in range(nb):
-        body = [gen_block_item(rng, sigs, depth, "if") for _ in range(rng.randint(1, 3))]
-        branches.append((gen_cond(rng, allow_colon=True), body))
+        body = [gen_block_item(rng, sigs, depth, "if", colon) for _ in range(rng.randint(1, 3))]
+        branches.append((gen_cond(rng, allow_colon="if" in colon), body))
     if rng.random() < 0.5:
-        branches.append((None, [gen_block_item(rng, sigs, depth, "if") for _ in range(rng.randint(1, 2))]))
+        branches.append((None, [gen_block_item(rng, sigs, depth, "if", colon) for _ in range(rng.randint(1, 2))]))
     return If(branches)
 
 
-def gen_for(rng, sigs, depth):
+def gen_for(rng, sigs, depth, colon=()):
     var, coll = rng.choice([("i", "range(2)"), ("item", "xs"), ("i, v", "enumerate(xs)"), ("k, v", "d.items()"),
                             ("c", '["a", "b"]')])
-    if rng.random() < 0.04:
+    if "for" in colon and rng.random() < 0.04:
         coll = "xs[0:2]"
-    return For(var, coll, [gen_block_item(rng, sigs, depth, "for") for _ in range(rng.randint(1, 3))])
+    return For(var, coll, [gen_block_item(rng, sigs, depth, "for", colon) for _ in range(rng.randint(1, 3))])
 
 
 def gen_join_block(rng, sigs):
@@ -637,7 +640,7 @@ def gen_join_block(rng, sigs):
     return out
 
 
-def gen_top_items(rng, sigs, depth, n):
+def gen_top_items(rng, sigs, depth, n, colon=()):
     out = []
     for _ in range(n):
         r = rng.random()
@@ -650,9 +653,9 @@ def gen_top_items(rng, sigs, depth, n):
         elif r < 0.60:
             out.append(PyBlock(list(rng.choice(PY_BLOCKS))))
         elif r < 0.74:
-            out.append(gen_if(rng, sigs, depth))
+            out.append(gen_if(rng, sigs, depth, colon))
         elif r < 0.84:
-            out.append(gen_for(rng, sigs, depth))
+            out.append(gen_for(rng, sigs, depth, colon))
         elif r < 0.89:
             out.append(gen_render(rng))
         elif r < 0.92:
@@ -664,8 +667,8 @@ def gen_top_items(rng, sigs, depth, n):
     return out
 
 
-def gen_passage_body(rng, sigs, depth):
-    body = gen_top_items(rng, sigs, depth, rng.randint(1, 5))
+def gen_passage_body(rng, sigs, depth, colon=()):
+    body = gen_top_items(rng, sigs, depth, rng.randint(1, 5), colon)
     if rng.random() < 0.3:
         # one or two @join sections
         for _ in range(rng.choice([1, 1, 2])):
@@ -691,7 +694,7 @@ def gen_passage_body(rng, sigs, depth):
     return fixed
 
 
-def gen_story(rng, n_passages=None, depth=2) -> Story:
+def gen_story(rng, n_passages=None, depth=2, colon_headers=("if", "for")) -> Story:
     n = n_passages or rng.randint(2, 4)
     names = ["Start"] + rng.sample(["Hall", "Market", "Tick", "Shop.Back", "_End", "Room2", "Garden"], n - 1)
     if rng.random() < 0.3:
@@ -705,7 +708,7 @@ def gen_story(rng, n_passages=None, depth=2) -> Story:
     passages = []
     for nm, params in sigs:
         tags = rng.choice([[], [], [], ["intro"], ["mood:dark", "night"]])
-        passages.append(Passage(nm, list(params), list(tags), gen_passage_body(rng, sigs, depth)))
+        passages.append(Passage(nm, list(params), list(tags), gen_passage_body(rng, sigs, depth, colon_headers)))
     # the initial passage must be enterable without arguments
     start = None
     if rng.random() < 0.35:
